@@ -122,7 +122,7 @@ Lemma tree_seek_ok fuel t v : tree_ok ts t -> 0 <= v < ts_L ts -> Z.of_nat fuel 
              (ne_ok ts t -> ne_ok ts t').
 Proof.
   intros H Hv Hf. unfold tree_seek, x_lt_z, x_ge_z.
-  replace ((v <? 0) || (ts_L ts <=? v)) with false by lia.
+  replace (negb ((0 <=? v) && (v <? ts_L ts))) with false by lia.
   destruct (t_index t =? -1) eqn:E.
   - apply tree_seek_from_null_ok; auto. lia.
   - apply tree_seek_linear_ok; auto.
